@@ -496,6 +496,7 @@ def run(ctx: Ctx, rep: Report, tier: str) -> None:  # noqa: C901
         if cons_ok:
             rep.ok(f"{ls.qualname}: path storing all four views", "_ports = f(_items), _sport = g(_ports)", where=where(ls))
     numerals_as_text(ctx, rep)
+    validated_is_returned(ctx, rep)
     rep.rule("R08.5")
     for nm in ("items", "ports", "sport", "protocol"):
         st = port.lookup_setter(nm)
@@ -515,6 +516,40 @@ def run(ctx: Ctx, rep: Report, tier: str) -> None:  # noqa: C901
             rep.ok(f"Port.{nm} setter", "every normal path re-enters the line setter (directly or through another view)", where=where(st))
         else:
             rep.violation(st.qualname, "normal path without self.line = ...", "a writable view can return without rebuilding the other views from text", where(st))
+
+
+def validated_is_returned(ctx: Ctx, rep: Report, rid: str = "R08.1b") -> None:
+    """The operand list whose length the arity guards test is the list that is returned, up to a
+    length-preserving reordering (sorted/list/tuple/reversed): de-duplication or filtering after the
+    check changes the arity that was validated."""
+    rep.rule(rid)
+    li = ctx.func("Port._line__items_to_ints")
+    lenvars: Set[str] = set()
+    for n in own_nodes(li.node):
+        if isinstance(n, ast.If) and any(isinstance(s_, ast.Raise) for s_ in n.body):
+            for x in ast.walk(n.test):
+                if isinstance(x, ast.Call) and isinstance(x.func, ast.Name) and x.func.id == "len" and x.args and isinstance(x.args[0], ast.Name):
+                    lenvars.add(x.args[0].id)
+    rep.instance()
+    rep.require(bool(lenvars), "Port._line__items_to_ints: arity guards vanished")
+    bad = None
+    for p in function_paths(ctx.cfg(li)):
+        if p.raises or p.ret is None:
+            continue
+        e = p.ret
+        steps = []
+        while True:
+            if isinstance(e, ast.Call) and isinstance(e.func, ast.Name) and e.func.id in ("sorted", "list", "tuple", "reversed") and len(e.args) == 1:
+                steps.append(e.func.id)
+                e = e.args[0]
+                continue
+            break
+        if not (isinstance(e, ast.Name) and e.id in lenvars):
+            bad = p.ret
+    if bad is None:
+        rep.ok("Port._line__items_to_ints: return", f"the validated list ({', '.join(sorted(lenvars))}) itself, reordered at most", where=where(li))
+    else:
+        rep.violation("Port._line__items_to_ints", f"return {snippet(bad)}", f"the arity was checked on `{', '.join(sorted(lenvars))}` but a list of possibly different length is returned: 'range 5 5' is stored with one operand and renders text its own parser rejects", where(li), inp='Port("range 5 5", protocol="tcp").line re-parsed')
 
 
 NUMERAL_SLICE = [
